@@ -240,6 +240,47 @@ def coq_dec(d):
     return "(DFin %s %d%%N %s)" % ("true" if t.sign else "false", c, coq_z(t.exponent))
 
 
+class Inst:
+    """a data-class instance frozen into plain data inside the worker (unpickling a Schema would go through
+    its __setitem__ and re-parse every item)"""
+
+    def __init__(self, cls, items):
+        self.cls, self.items = cls, items
+
+    def __repr__(self):
+        return "%s(%s)" % (self.cls.__name__, ", ".join("%s=%r" % kv for kv in self.items))
+
+    def __eq__(self, other):
+        return isinstance(other, Inst) and self.cls is other.cls and self.items == other.items
+
+    def __hash__(self):
+        return hash(self.cls)
+
+
+def freeze(v):
+    """replace data-class instances (recursively) by Inst"""
+    parser = getattr(type(v), "__parser__", None)
+    if parser is not None and not isinstance(v, type):
+        if isinstance(v, dict):
+            items = [(k, freeze(x)) for k, x in dict.items(v)]
+        else:
+            items = [(k, freeze(x)) for k, x in v.__dict__.items() if not k.startswith("__")]
+        return Inst(type(v), items)
+    t = type(v)
+    if t is list:
+        return [freeze(x) for x in v]
+    if t is tuple:
+        return tuple(freeze(x) for x in v)
+    if t is dict:
+        return {k: freeze(x) for k, x in v.items()}
+    if t is set or t is frozenset:
+        try:
+            return t(freeze(x) for x in v)
+        except TypeError:
+            return v
+    return v
+
+
 class Encoder:
     """Python value -> Coq `pyval` term.  Classes/objects are numbered by the tables given."""
 
@@ -288,6 +329,11 @@ class Encoder:
             if v in self.classes:
                 return "(PCls %d)" % self.classes[v]
             raise Unencodable("class %r" % v)
+        if t is Inst:
+            if v.cls not in self.classes:
+                raise Unencodable("instance of unnumbered class %r" % v.cls)
+            return "(PInst %d [%s])" % (self.classes[v.cls], "; ".join(
+                "(%s, %s)" % (coq_str(k), self.val(x)) for k, x in v.items))
         if t in self.classes:
             data = self.inst_data(v)
             return "(PInst %d [%s])" % (self.classes[t], "; ".join(
